@@ -47,7 +47,11 @@ NAMES = {"info": ["composeinfo.json"], "images": ["images.json", "image-manifest
          "modules": ["modules.json"]}
 PRESENCE = {"info": ["absent", "present"], "images": ["absent", "current", "legacy", "both"],
             "rpms": ["absent", "current", "legacy", "both"], "modules": ["absent", "present"]}
-KINDS = ["valid", "not-json", "empty", "truncated", "binary", "foreign-type", "bad-compose-type", "wrong-shape"]
+KINDS = ["valid", "not-json", "empty", "truncated", "binary", "foreign-type", "bad-compose-type", "wrong-shape",
+         # valid metadata with nothing in it (an object that is falsy where containers define __len__)
+         "valid-empty-payload",
+         # the same text in an encoding a text-mode reader does not expect: judged DIFFERENTIALLY against loading the file directly
+         "encoded-utf8-bom", "encoded-utf16"]
 CLASS_FLOORS = {"layouts-0": 3, "layouts-1": 20, "layouts-2": 20, "layouts-3": 10, "compose-preferred": 20, "legacy-name": 20,
                 "both-names": 20, "spelling-relative": 20, "spelling-double-slash": 10, "spelling-dot-segment": 10, "spelling-relative-dotdot": 10, "trailing-slash": 20, "heterogeneous": 10, "missing-file": 50, "accessor-loaded": 100}
 for _k in KINDS:
@@ -133,9 +137,20 @@ def make_text(pm, acc, tag):
     return mo.dumps()
 
 
+def empty_payload(textin, acc):
+    doc = json.loads(textin)
+    key = {"info": "variants", "images": "images", "rpms": "rpms", "modules": "modules"}[acc]
+    doc["payload"][key] = {}
+    return json.dumps(doc, indent=4, sort_keys=True)
+
+
 def spoil(textin, kind, acc):
     if kind == "valid":
         return textin.encode()
+    if kind == "encoded-utf8-bom":
+        return b"\xef\xbb\xbf" + textin.encode("utf-8")
+    if kind == "encoded-utf16":
+        return textin.encode("utf-16")
     if kind == "not-json":
         return b"this is not json {\n"
     if kind == "empty":
@@ -189,9 +204,12 @@ def materialise(pm, cfg, base, texts):
                 if key not in texts:
                     texts[key] = make_text(pm, acc, tag)
                 kind = cfg["kind"] if acc == cfg.get("designated", "info") else "valid"
+                t = texts[key]
+                if kind == "valid-empty-payload":
+                    kind, t = "valid", empty_payload(t, acc)
                 with open(os.path.join(md, name), "wb") as f:
-                    f.write(spoil(texts[key], kind, acc))
-                placed[layout][acc][name] = (kind, texts[key])
+                    f.write(spoil(t, kind, acc))
+                placed[layout][acc][name] = (kind, t)
     return placed
 
 
@@ -346,7 +364,27 @@ def _check_config(ctx, pm, cfg, workdir, texts, counter):
         elif "valid" not in kinds:
             kind = sorted(kinds)[0]
             ctx.count("kind-" + kind)
-            if kind == "wrong-shape":
+            if kind.startswith("encoded-"):
+                # whatever loading the file directly does, the accessor does (RuntimeError standing for the direct load's error)
+                wants = set()
+                for name in here:
+                    direct = pm[acc]()
+                    try:
+                        direct.load(os.path.join(got_root, "metadata", name))
+                        wants.add(direct.dumps())
+                    except Exception:
+                        wants.add("RuntimeError")
+                try:
+                    got = obj.dumps() if outcome == "loaded" else outcome
+                except Exception as e:
+                    got = "dumps raised %s" % type(e).__name__
+                bad = got not in wants
+                ctx.monitor("accessor-equals-direct-load", fired=bad)
+                if bad:
+                    ctx.violation("accessor-equals-direct-load", "each of info/images/rpms/modules equals what loading that file directly gives "
+                                  "(a file the direct load cannot decode surfaces as RuntimeError)", sub,
+                                  observed=outcome if outcome != "loaded" else "an object", expected=sorted(w[:40] for w in wants))
+            elif kind == "wrong-shape":
                 bad = outcome == "loaded"
                 ctx.monitor("error-is-runtimeerror-naming-location", fired=bad)
                 if bad:
@@ -397,6 +435,7 @@ def _check_config(ctx, pm, cfg, workdir, texts, counter):
                               "after a file was rewritten returns the new content", dict(case, accessor=acc), observed=_origin(got2),
                               expected=_origin(want2))
     ctx.count("kind-valid") if cfg["kind"] == "valid" else None
+    ctx.count("kind-valid-empty-payload") if cfg["kind"] == "valid-empty-payload" else None
     shutil.rmtree(base, ignore_errors=True)
 
 
